@@ -15,6 +15,8 @@ def tasks(tier, params):
     lmax = 7 if tier == 'thorough' else 5
     out = [('new.L%d' % n, {'part': 'new', 'L': n}) for n in range(0, lmax + 1)]
     out += [('new.long%d' % k, {'part': 'newlong', 'k': k}) for k in range(4)]
+    # the same names written with empty labels (repeated and trailing dots): the text is longer, the encoded name is not
+    out += [('new.longdots%d' % k, {'part': 'newlong', 'k': k, 'dots': True}) for k in range(4)]
     kmax = 4 if tier == 'thorough' else 3
     for a in range(0, kmax + 1):
         for b in range(0, kmax + 1):
@@ -117,10 +119,12 @@ def run_task(prog, tid, params, tier):
             last = [59, 60, 61, 62][params['k']] + 1 - 1
             lens = [63, 63, 63, [60, 61, 62, 63][params['k']]]
             syms = []
+            seps = ['', '..', '.', '...'] if params.get('dots') else ['', '.', '.', '.']
             for i, l in enumerate(lens):
-                if i:
-                    syms.append(mk('u8', 46))
+                syms += [mk('u8', 46)] * len(seps[i])
                 syms += [mk('u8', 97)] * l      # contents concrete: the label/name lengths are the point here
+            if params.get('dots'):
+                syms.append(mk('u8', 46))
             n = len(syms)
 
         def run(I):
